@@ -546,3 +546,24 @@ Proof.
     + intro E. subst. congruence.
     + intro E. subst. congruence.
 Qed.
+
+(* ---------- file semantics of Sensors::load ---------- *)
+Lemma file_weights_spec : forall ncol (lastcol : list R) i wi, nth_error lastcol i = Some wi ->
+  nth_error (file_weights Rops ncol lastcol) i = Some (if Nat.eqb ncol 7 then wi else 1).
+Proof.
+  intros ncol lastcol i wi H. unfold file_weights. destruct (Nat.eqb ncol 7); [auto|].
+  rewrite nth_error_map, H. reflexivity.
+Qed.
+
+(* an unlabelled file: every integration point is its own sensor and carries the weight of the file (7th column when
+   there are 7 columns, 1 otherwise) *)
+Lemma unlabelled_entry : forall ncol (lastcol : list R) s i wi, nth_error lastcol i = Some wi ->
+  weights_entry Rops (unlabelled_index (length lastcol)) (file_weights Rops ncol lastcol) s i =
+  if Nat.eqb i s then (if Nat.eqb ncol 7 then wi else 1) else 0.
+Proof.
+  intros ncol lastcol s i wi H. unfold weights_entry, unlabelled_index.
+  assert (Hi : (i < length lastcol)%nat) by (apply nth_error_Some; congruence).
+  assert (E : nth_error (seq 0 (length lastcol)) i = Some i).
+  { rewrite nth_error_nth' with (d := 0%nat) by (rewrite seq_length; auto). rewrite seq_nth by auto. reflexivity. }
+  rewrite E, (file_weights_spec ncol lastcol i wi H). reflexivity.
+Qed.
